@@ -250,7 +250,8 @@ def history(rnd, idx, tier):
             adopt = rnd.random() < 0.08
             order = list(range(1, n + 1)); rnd.shuffle(order)
             ops.append(invoke(targets, j=rnd.randint(1, 3), k=rnd.choice([0, 0, 1, 2]), adopt=adopt,
-                              outcomes=outcomes, kill=kill, policy={"kind": "prio", "order": order}))
+                              outcomes=outcomes, kill=kill, policy={"kind": "prio", "order": order},
+                              explain=rnd.random() < 0.4))
     ops.append(invoke([], j=2))
     ops.append(invoke([], j=2))
     return scenario("hist-%d" % idx, ops, fam="hist")
@@ -304,7 +305,8 @@ def regen_history(rnd, idx, tier):
     for f in sorted(allsrc):
         ops.append({"op": "write", "path": f})
     def inv(targets=(), outcomes=None, **kw):
-        return invoke(list(targets), j=rnd.randint(1, 2), file=fname, outcomes=outcomes, **kw)
+        return invoke(list(targets), j=rnd.randint(1, 2), file=fname, outcomes=outcomes,
+                      explain=rnd.random() < 0.3, **kw)
     ops.append(inv())
     for _ in range(rnd.randint(2, 5)):
         r = rnd.random()
@@ -315,6 +317,9 @@ def regen_history(rnd, idx, tier):
         tg = []
         if rnd.random() < 0.4:
             tg = ["o%d" % rnd.randint(1, 3)]       # may exist only in some versions
+        elif rnd.random() < 0.3:
+            # the manifest itself is requested, alone or with something else
+            tg = [fname] if rnd.random() < 0.6 else [fname, "o1"]
         outcomes = {}
         if rnd.random() < 0.15:
             outcomes[1] = "fail"                    # regeneration fails
